@@ -66,11 +66,12 @@ class _ValBool(Contract):
     witness_args = (0,)
 
     def configs(self, tier):
-        return [dict(mode=m) for m in MODES]
+        # ... and declared from a Python bool (True / False are what comparisons of plain values give)
+        return [dict(mode=m) for m in MODES] + [dict(mode=m, arg=a) for m in ("plain", "g0") for a in ("True", "False")]
 
     def setup(self, c, cfg):
         apply_mode(c, cfg["mode"])
-        v = SymInt(z3.Int("s_v"))
+        v = {"True": True, "False": False}[cfg["arg"]] if "arg" in cfg else SymInt(z3.Int("s_v"))
         return getattr(c.w.modules["pysnark.boolean"], self.alloc), (v,), {}
 
     def raises(self, c, val):
